@@ -2,7 +2,7 @@
    finite generated table). *)
 From Coq Require Import List String ZArith NArith Bool.
 Import ListNotations.
-From VF Require Import C16.Model C16.Proofs.
+From VF Require Import C16.Model C16.Proofs C16.ProofsF C16.ProofsA.
 Local Open Scope string_scope.
 Local Open Scope list_scope.
 
@@ -24,21 +24,21 @@ Print Assumptions exact_values_untouched.
 (* ---- credentials: ParseCredential -> MarshalJSON ----
    FULL STATEMENT for custom top-level properties, every accepted credential, every name that is not a member of
    rawCredential (generated list): the output holds the member iff the input does, with the float64 image of its value. *)
-Theorem vc_custom_member_roundtrip : forall m v k,
-  parse_vc (JObj m) = Some v ->
+Theorem vc_custom_member_roundtrip : forall w w' m v k,
+  parse_vc w (JObj m) = Some v ->
   ~ In k (map (fun f => fst (fst f)) rawCredential_fields) ->
-  match marshal_vc v with JObj o => lookup o k | _ => None end = option_map (fun x => f64j (f64j x)) (lookup m k).
+  match marshal_vc w' v with JObj o => lookup o k | _ => None end = option_map (fun x => f64j (f64j x)) (lookup m k).
 Proof. exact vc_custom_member. Qed.
 Print Assumptions vc_custom_member_roundtrip.
 
 (* ... hence exactly preserved when its numbers are within +-2^53 (partial: the guard excludes finding #26) *)
 Theorem vc_custom_member_preserved_partial : forall m v k x,
-  parse_vc (JObj m) = Some v ->
+  parse_vc Fixed (JObj m) = Some v ->
   ~ In k (map (fun f => fst (fst f)) rawCredential_fields) ->
   lookup m k = Some x -> exact x = true ->
-  match marshal_vc v with JObj o => lookup o k | _ => None end = Some x.
+  match marshal_vc Fixed v with JObj o => lookup o k | _ => None end = Some x.
 Proof.
-  intros m v k x Hp Hk Hl He. rewrite (vc_custom_member m v k Hp Hk), Hl. cbn.
+  intros m v k x Hp Hk Hl He. rewrite (vc_custom_member Fixed Fixed m v k Hp Hk), Hl. cbn.
   rewrite (f64j_exact x He), (f64j_exact x He). reflexivity.
 Qed.
 Print Assumptions vc_custom_member_preserved_partial.
@@ -47,8 +47,9 @@ Print Assumptions vc_custom_member_preserved_partial.
    (1) a number above 2^53, (2) a member named jwt, (3) a member ID after the defined member id *)
 Definition vc_skeleton (extra : obj) : json :=
   JObj ([("@context", JArr [JStr "c"]); ("type", JStr "T"); ("id", JStr "urn:a"); ("issuer", JStr "did:i")] ++ extra).
-Definition member_of_output (j : json) (k : string) : option json :=
-  match roundtrip_vc j with Some (JObj o) => lookup o k | _ => None end.
+Definition member_of_output_w (w : variant) (j : json) (k : string) : option json :=
+  match roundtrip_vc w j with Some (JObj o) => lookup o k | _ => None end.
+Definition member_of_output := member_of_output_w Fixed.
 
 Theorem vc_all_members_preserved_refuted :
   member_of_output (vc_skeleton [("n", JNum 9007199254740993%Z)]) "n" = Some (JNum 9007199254740992%Z) /\
@@ -114,6 +115,73 @@ Theorem didkey_roundtrip : forall code key,
 Proof. exact didkey_roundtrip_table. Qed.
 Print Assumptions didkey_roundtrip.
 
+(* NIST curve points: for P-256/384/521 and every X below 256^size, the did:key bytes of the compressed point
+   decode back to it, the point is exactly 1 + size bytes (fixed-width X, leading zero bytes kept), X and the
+   parity of Y are recovered *)
+Theorem fingerprint_roundtrip_ec_fixed_width : forall code n x y,
+  curve_size code = Some n -> (0 <= x < 256 ^ Z.of_nat n)%Z ->
+  fp_decode (fp_bytes code (ec_compress n x y)) = Some (ec_compress n x y, code) /\
+  didkey_decode (fp_bytes code (ec_compress n x y)) = Some (ec_compress n x y) /\
+  List.length (ec_compress n x y) = S n /\
+  be_value (tl (ec_compress n x y)) = x /\
+  (hd 0%N (ec_compress n x y) = 2 + Z.to_N (y mod 2))%N.
+Proof. exact ec_fp_roundtrip. Qed.
+Print Assumptions fingerprint_roundtrip_ec_fixed_width.
+
+(* ---- DID documents: ids relative to @base (or the document id) ---- *)
+Theorem relative_id_roundtrip : forall did base frag, make_rel did base (resolve_rel did base frag) = frag.
+Proof. exact make_rel_resolve. Qed.
+Print Assumptions relative_id_roundtrip.
+
+(* forms_roundtrip for verification methods: what populateRawVerificationMethod writes for a parsed method
+   (relative or absolute id, any @base, base58 / multibase / JWK key) parses back to the same method *)
+Theorem forms_roundtrip_verification_method : forall did base m v,
+  dec_vm Fixed did base m = Some v -> key_nonempty v = true ->
+  match enc_vm did base v with JObj m' => dec_vm Fixed did base m' = Some v | _ => False end.
+Proof. exact vm_reparse. Qed.
+Print Assumptions forms_roundtrip_verification_method.
+
+(* ... embedded in a relationship *)
+Theorem forms_roundtrip_embedded_relationship : forall did base vms m v,
+  dec_rel Fixed did base vms (JObj m) = Some [VEmb v] -> key_nonempty v = true ->
+  dec_rel Fixed did base vms (enc_rel did base (VEmb v)) = Some [VEmb v].
+Proof. exact rel_embedded_reparse. Qed.
+Print Assumptions forms_roundtrip_embedded_relationship.
+
+(* ... referenced: the text written for a reference (and for a method id) denotes the method's absolute id, and a
+   reference resolves only to a method with that id *)
+Theorem forms_roundtrip_referenced_relationship : forall w did base m v,
+  dec_vm w did base m = Some v -> abs_id did base (vm_id_text did base v) = m_id v.
+Proof. exact abs_id_text. Qed.
+Print Assumptions forms_roundtrip_referenced_relationship.
+
+Theorem reference_resolution_sound : forall did base vms k v,
+  find_vm did base vms k = Some v -> In v vms /\ (m_id v = k \/ m_id v = resolve_rel did base k).
+Proof. exact find_vm_sound. Qed.
+Print Assumptions reference_resolution_sound.
+
+(* the code as found: the declared controller of a method with a relative id was overwritten (fix 3ac0a2b) *)
+Theorem vm_controller_asis_refuted :
+  let m := [("id", JStr "#k"); ("type", JStr "T"); ("controller", JStr "did:c"); ("publicKeyBase58", JStr "abc")] in
+  option_map m_ctrl (dec_vm AsIs "did:a" "" m) = Some "did:a" /\
+  option_map m_ctrl (dec_vm Fixed "did:a" "" m) = Some "did:c" /\
+  option_map (vm_id_text "did:a" "did:a:long") (dec_vm Fixed "did:a" "did:a:long" m) = Some "#k".
+Proof. vm_compute. repeat split. Qed.
+Print Assumptions vm_controller_asis_refuted.
+
+(* the code as found invented "issuer": "" and turned a null subject into "" (fixes e7a28b5, a925e19) *)
+Theorem vc_issuer_subject_asis_refuted :
+  let d := JObj [("@context", JArr [JStr "c"]); ("type", JStr "T"); ("credentialSubject", JNull)] in
+  member_of_output_w AsIs d "issuer" = Some (JStr "") /\ member_of_output_w Fixed d "issuer" = None /\
+  member_of_output_w AsIs d "credentialSubject" = Some (JStr "") /\ member_of_output_w Fixed d "credentialSubject" = None.
+Proof. vm_compute. repeat split. Qed.
+Print Assumptions vc_issuer_subject_asis_refuted.
+
+(* float64 decoding is idempotent: a second pass through interface{} changes nothing *)
+Theorem f64_idempotent : forall z, f64round (f64round z) = f64round z.
+Proof. exact f64round_idem. Qed.
+Print Assumptions f64_idempotent.
+
 (* the generated table is the multicodec registry's, every code of it is accepted by PubKeyFromDIDKey, and an
    unknown code is refused *)
 Theorem multicodec_table_is_registry :
@@ -143,7 +211,7 @@ Example vc_roundtrip_nonvacuous :
   option_map (fun o => jeq o
     (JObj [("@context", JArr [JStr "c"]); ("type", JStr "T"); ("credentialSubject", JObj [("id", JStr "s"); ("deg", JNum 3%Z)]);
            ("issuer", JObj [("id", JStr "i"); ("name", JStr "n")]); ("termsOfUse", JObj [("id", JStr "t"); ("q", JNull)]);
-           ("id", JStr ""); ("custom", JObj [("a", JArr [JNum 1%Z; JNull])])])) (roundtrip_vc d) = Some true.
+           ("id", JStr ""); ("custom", JObj [("a", JArr [JNum 1%Z; JNull])])])) (roundtrip_vc Fixed d) = Some true.
 Proof. vm_compute. reflexivity. Qed.
 
 Example fingerprint_nonvacuous :
